@@ -10,7 +10,7 @@
 (* restarts the worker.  The configuration (max_files, max size, reuse) is *)
 (* chosen in Init.                                                         *)
 (*                                                                         *)
-(* The transcription is of the repaired code (fixes F4 F5 F6 F14 F16 in    *)
+(* The transcription is of the repaired code (fixes F4 F5 F6 F14 F16 FF1 FF2 in    *)
 (* /verif/patches).  `calls` is the log of the running on_batch call,      *)
 (* `hist` (hidden by VIEW) the finished calls; one REPLAY line is printed  *)
 (* for every transition that ends a call or crashes.                       *)
@@ -124,7 +124,7 @@ List ==
                     ELSE IF env.reuse /\ l # {} THEN "openex" ELSE "decide"
          IN Step("list", None, 0, res, [w EXCEPT !.pc = pc2, !.listing = l], env)
 
-\* ActiveFile::try_open_reuse: open_existing(newest name), sync_parent (fix F18: the entry
+\* ActiveFile::try_open_reuse: open_existing(newest name), sync_parent (fix FF1: the entry
 \* of a file whose creation was interrupted may never have been synced), len(); a failure
 \* of any of them is logged and ignored (no file is reused)
 OpenEx ==
